@@ -19,7 +19,7 @@ def run(ctx):
     q = ctx.quick()
     opts = [dict(shards=0, watchwithoutclass=True), dict(shards=3, watchwithoutclass=True),
             dict(shards=0, watchwithoutclass=True, reloadinterval_ms=30), dict(shards=3, watchwithoutclass=True, reloadinterval_ms=30)]
-    hs = ctl.tlc_histories(ctx, 400 if q else 6000, maxops=2, maxbatches=3, tag="faults", opts=opts, faults=tuple(U.FAULTS))
+    hs = ctl.tlc_histories(ctx, 250 if q else 6000, maxops=2, maxbatches=3, tag="faults", opts=opts, faults=tuple(U.FAULTS))
     # every failure point on one fixed history shape, with and without the reload queue, once and twice in a row
     for oi, opt in enumerate(opts):
         for f in U.FAULTS:
